@@ -139,6 +139,11 @@ def cli_case(case):
             mtxt = rng.choice(e2e.MANIFESTS[case["manifest"]]).encode()
             if case.get("manifest_bom"):
                 mtxt = b"\xef\xbb\xbf" + mtxt
+            if case.get("trigger_in_manifest"):
+                # the manifest is a source file too (setup.py): the codemod rewrites it and then adds its dependency to it,
+                # two changesets for one file in one result
+                mtxt = ('from setuptools import setup\n\nsetup(\n    name="x",\n    install_requires=[\n        "requests",\n    ],\n)\n\n'
+                        + rng.choice(seeds[cms[0]])).encode()
             files[case.get("manifest_dir", "") + case["manifest"]] = mtxt
         proj = root / "p"
         e2e.write_project(proj, files)
@@ -193,6 +198,8 @@ def search(ctx):
         cases.append({"layout": "plain", "n": 2, "codemods": ["pixee:python/use-defusedxml"], "manifest": m, "seed": rng.randint(0, 10**9)})
         cases.append({"layout": "plain", "n": 2, "codemods": ["pixee:python/use-defusedxml"], "manifest": m, "manifest_dir": "backend/", "seed": rng.randint(0, 10**9)})
     cases.append({"layout": "plain", "n": 2, "codemods": ["pixee:python/use-defusedxml"], "manifest": "requirements.txt", "manifest_bom": True, "seed": rng.randint(0, 10**9)})
+    cases.append({"layout": "plain", "n": 1, "codemods": ["pixee:python/use-defusedxml"], "manifest": "setup.py", "trigger_in_manifest": True, "seed": rng.randint(0, 10**9)})
+    cases.append({"layout": "plain", "n": 2, "codemods": ["pixee:python/use-defusedxml", "pixee:python/remove-unnecessary-f-str"], "manifest": "setup.py", "trigger_in_manifest": True, "seed": rng.randint(0, 10**9)})
     results = impl.pool_map(cli_case, cases)
     lean_reqs, lean_meta = [], []
     for c, r in zip(cases, results):
